@@ -36,6 +36,7 @@ import DafRel.Bridge.RelOps
 
 namespace DafRel.Props.C03
 
+
 open DafRel
 
 /-- **Back-tracking is sound.** -/
@@ -50,14 +51,14 @@ theorem backtracking_sound (σ : Leaves) (st : Store) (pref : Engine) (hpk : pre
 theorem backtracking_sound_any_preferred_engine (σ : Leaves) (st : Store) (pref : Engine)
     (fuel : Nat) (o : UOp) (tree : Rel) (res : Res) (done : Bool)
     (hwf : tree.WF) (htr : tree.Truthful σ) (hop : o.wfOn tree.columns = true)
-    (hnd : o.isProj = true → tree.spineNoDedup) (hpo : tree.prefTargetsGood σ pref)
+    (hnd : o.isProj = true → tree.spineNoDedup) (hpo : tree.prefTargetsGood NodeInv.triv σ pref)
     (h : backtrack st fuel (.u o) tree pref = .ok (res, done)) : BTok σ o tree (res.get tree) done :=
   backtrack_sound σ st pref fuel o tree res done hwf htr hop hnd hpo h
 
 /-- **`apply` on an iteration-engine target with a preferred engine of either family** (`transfer=False`). -/
 theorem apply_with_sql_preferred_engine_sound (σ : Leaves) (st : Store) (fuel : Nat) (o : UOp) (t : Rel)
     (opts : Opts) (res : Res) (hkt : t.engine.kind = .iter) (hwf : t.WF) (htr : t.Truthful σ)
-    (hnd : o.isProj = true → t.spineNoDedup) (hpo : ∀ p, opts.pref = some p → t.prefTargetsGood σ p)
+    (hnd : o.isProj = true → t.spineNoDedup) (hpo : ∀ p, opts.pref = some p → t.prefTargetsGood NodeInv.triv σ p)
     (htf : opts.transfer = false)
     (h : applyOp st (fuel+1) (.u o) t opts = .ok res) : ApplyOK σ o t (res.get t) opts :=
   applyOp_iter_target_anypref_sound σ st fuel o t opts res hkt hwf htr hnd hpo htf h
@@ -147,8 +148,8 @@ example : (applyOp [] defaultFuel (.u (.slice 1 (some 3))) treeS optsS).toOption
 a calculation preferred in `es` is handed to the SQL engine below the transfer -/
 private def treeI : Rel := .unary (.sel (.ref tb)) (.transfer 4 e0 leafS) [ta, tb]
 private def optsI : Opts := { pref := some es, backtrack := true, transfer := false, require := true }
-example (σ : Leaves) (hσ : leafS.Truthful σ) : treeI.WF ∧ treeI.prefTargetsGood σ es :=
-  ⟨⟨trivial, rfl, by decide⟩, ⟨fun _ _ => Good.atom _ rfl trivial hσ rfl, trivial⟩⟩
+example (σ : Leaves) (hσ : leafS.Truthful σ) : treeI.WF ∧ treeI.prefTargetsGood NodeInv.triv σ es :=
+  ⟨⟨trivial, rfl, by decide⟩, ⟨fun _ _ => Good.atom _ rfl trivial hσ rfl trivial, trivial⟩⟩
 example : (applyOp [] defaultFuel (.u (.calc tx (.ref ta))) treeI optsI).toOption.map
     (fun r => match r.get treeI with
       | .unary (.sel _) (.transfer _ _ (.select ..)) _ => true
